@@ -158,7 +158,7 @@ func setup(string) {
 }
 
 func genWrite(r *hv.Rng) []byte {
-	switch r.Intn(10) {
+	switch r.Intn(24) {
 	case 0:
 		return []byte{}
 	case 1:
@@ -324,5 +324,5 @@ func gen(r *hv.Rng, i int, tier string) (string, hv.Val) {
 }
 
 func main() {
-	hv.Main(&hv.Spec{Prop: "C42", Gen: gen, Impl: impl, Setup: setup, NQuick: 6000, NThorough: 300000})
+	hv.Main(&hv.Spec{Prop: "C42", Gen: gen, Impl: impl, Setup: setup, NQuick: 4000, NThorough: 300000})
 }
